@@ -35,6 +35,9 @@ Proof. intros H. reflexivity. Qed.
 Lemma w_keys_differ : wk1 <> wk2.
 Proof. intros E. inversion E. Qed.
 
+Lemma real_collision : forall H, wk1 <> wk2 /\ cleaf H wk1 wv1 = cleaf H wk2 wv2.
+Proof. intros H. exact (conj w_keys_differ (w_collision H)). Qed.
+
 Lemma w_genesis_ok : genesis_ok ckey cval (cleaf sha512_256) w_g [].
 Proof. intros y. split; [intros [] | intros (k & v & A & _); discriminate]. Qed.
 
